@@ -1,2 +1,424 @@
+//! C08 — Untrusted input never crashes a BBS verifier, signer or holder.
+//! Built with overflow checks and debug assertions (cargo profile `checked`). Oracle per call:
+//! outcome is Ok or Err (never a panic), generator derivations <= 64 + 4*units (logical-step
+//! budget armed as fuel), peak allocation <= 256 KiB + 4 KiB*units + 64*input bytes.
+//! units = input bytes / 32 + number of list elements (+ the explicit count n for update_signature).
+
+use crate::api::*;
 use crate::common::*;
-pub fn scenarios(_ctx: &Ctx) -> Vec<Scenario> { vec![] }
+use crate::refimpl as rf;
+use rand::RngCore;
+use serde_json::json;
+use zkryptium::bbsplus::commitment::BBSplusCommitment;
+use zkryptium::bbsplus::proof::{BBSplusPoKSignature, BBSplusZKPoK};
+use zkryptium::bbsplus::signature::BBSplusSignature;
+use zkryptium::utils::message::bbsplus_message::BBSplusMessage;
+use zkryptium::utils::verif_hooks::FUEL_MARKER;
+
+fn probe<T, E: std::fmt::Debug>(
+    ctx: &Ctx,
+    op: &str,
+    case: &str,
+    input_bytes: usize,
+    list_elems: usize,
+    f: impl FnOnce() -> Result<T, E>,
+) -> Option<T> {
+    let units = (input_bytes / 32 + list_elems) as u64;
+    let fuel = 64 + 4 * units;
+    let full = format!("{}/{}", op, case);
+    ctx.distinct(&full);
+    let m = ctx.call(op, &full, Some(fuel), f);
+    let class = case.split('/').next().unwrap_or("");
+    match &m.outcome {
+        Outcome::Panic(msg) if msg.contains(FUEL_MARKER) => {
+            ctx.violation(&format!("C08:unbounded-work/{}/{}", op, class), json!({"case":full,"fuel":fuel,"units":units,"input_bytes":input_bytes}));
+        }
+        Outcome::Panic(msg) => {
+            ctx.violation(&format!("C08:panic/{}/{}", op, class), json!({"case":full,"panic":msg,"input_bytes":input_bytes}));
+        }
+        _ => {}
+    }
+    let budget = 256 * 1024 + 4096 * units as usize + 64 * input_bytes;
+    if m.alloc.0 > budget {
+        ctx.violation(&format!("C08:unbounded-allocation/{}/{}", op, class), json!({"case":full,"peak":m.alloc.0,"biggest_request":m.alloc.1,"budget":budget}));
+    }
+    ctx.count("max_alloc_peak_seen", 0);
+    m.value
+}
+
+/// content classes for a byte string of length `n`
+fn contents(r: &mut impl RngCore, n: usize, honest: &[u8], valid_tile: &[u8]) -> Vec<(&'static str, Vec<u8>)> {
+    let mut v = vec![
+        ("zeros", vec![0u8; n]),
+        ("ff", vec![0xffu8; n]),
+        ("random", rand_bytes(r, n)),
+    ];
+    // honest encoding truncated / extended (zero padded, then random padded) to that length
+    let mut h = honest.to_vec();
+    h.resize(n, 0);
+    v.push(("honest-resized", h));
+    let mut h = honest.to_vec();
+    if h.len() < n {
+        let extra = rand_bytes(r, n - h.len());
+        h.extend(extra);
+    } else {
+        h.truncate(n);
+    }
+    v.push(("honest-randpad", h));
+    // "all valid": well-formed elements tiled so that deep paths run
+    let mut t = Vec::with_capacity(n);
+    while t.len() < n && !valid_tile.is_empty() {
+        t.extend_from_slice(valid_tile);
+    }
+    t.truncate(n);
+    t.resize(n, 0);
+    v.push(("valid-tiled", t));
+    for flag in [0x80u8, 0xa0, 0xc0, 0xe0] {
+        let mut x = rand_bytes(r, n);
+        if n > 0 {
+            x[0] = flag | (x[0] & 0x1f);
+        }
+        v.push((match flag { 0x80 => "flag80", 0xa0 => "flaga0", 0xc0 => "flagc0", _ => "flage0" }, x));
+    }
+    let mut inf = vec![0u8; n];
+    if n > 0 {
+        inf[0] = 0xc0;
+    }
+    v.push(("infinity", inf));
+    v
+}
+
+struct HonestBits {
+    pk: Vec<u8>,
+    sk: Vec<u8>,
+    proof: Vec<u8>,
+    commitment: Vec<u8>,
+    g1: Vec<u8>,
+    scalar: Vec<u8>,
+}
+
+fn honest_bits<X: Sx>(r: &mut impl RngCore) -> HonestBits {
+    let (sk, pk) = keypair::<X>(r);
+    let msgs = gen_messages(r, 28, 0);
+    let sig = Sig::<X>::sign(Some(&msgs), &sk, &pk, None).unwrap();
+    let proof = Pok::<X>::proof_gen(&pk, &sig.to_bytes(), None, None, Some(&msgs), None).unwrap();
+    let (com, _) = Com::<X>::commit(Some(&msgs)).unwrap();
+    HonestBits {
+        pk: pk.to_bytes().to_vec(),
+        sk: sk.to_bytes().to_vec(),
+        proof: proof.to_bytes(),
+        commitment: com.to_bytes(),
+        g1: sig.to_bytes()[..48].to_vec(),
+        scalar: sig.to_bytes()[48..].to_vec(),
+    }
+}
+
+/// A. decoders on every length in `lens`
+fn decoders<X: Sx>(ctx: &Ctx, idx: u64, lens: Vec<usize>) {
+    let mut r = ctx.rng("c08a", idx);
+    let hb = honest_bits::<X>(&mut r);
+    let mut tile_proof = hb.g1.repeat(3);
+    tile_proof.extend(hb.scalar.repeat(40));
+    let mut tile_commit = hb.g1.clone();
+    tile_commit.extend(hb.scalar.repeat(40));
+    for &n in &lens {
+        for (cl, b) in contents(&mut r, n, &hb.pk, &hb.pk) {
+            probe(ctx, "PublicKey::from_bytes", &format!("{cl}/len{n}"), n, 0, || BBSplusPublicKey::from_bytes(&b));
+        }
+        for (cl, b) in contents(&mut r, n, &hb.sk, &hb.scalar) {
+            probe(ctx, "SecretKey::from_bytes", &format!("{cl}/len{n}"), n, 0, || BBSplusSecretKey::from_bytes(&b));
+        }
+        for (cl, b) in contents(&mut r, n, &hb.proof, &tile_proof) {
+            probe(ctx, "PoKSignature::from_bytes", &format!("{cl}/len{n}"), n, 0, || Pok::<X>::from_bytes(&b));
+            if n % 7 == 0 {
+                probe(ctx, "BBSplusPoKSignature::from_bytes", &format!("{cl}/len{n}"), n, 0, || BBSplusPoKSignature::from_bytes(&b));
+            }
+        }
+        for (cl, b) in contents(&mut r, n, &hb.commitment[48..], &hb.scalar) {
+            probe(ctx, "ZKPoK::from_bytes", &format!("{cl}/len{n}"), n, 0, || BBSplusZKPoK::from_bytes(&b));
+        }
+        for (cl, b) in contents(&mut r, n, &hb.commitment, &tile_commit) {
+            probe(ctx, "Commitment::from_bytes", &format!("{cl}/len{n}"), n, 0, || Com::<X>::from_bytes(&b));
+            if n % 7 == 0 {
+                probe(ctx, "BBSplusCommitment::from_bytes", &format!("{cl}/len{n}"), n, 0, || BBSplusCommitment::from_bytes(&b));
+            }
+        }
+    }
+}
+
+/// fixed-size decoders on content classes
+fn fixed_decoders<X: Sx>(ctx: &Ctx, idx: u64) {
+    let mut r = ctx.rng("c08f", idx);
+    let hb = honest_bits::<X>(&mut r);
+    let mut sig = hb.g1.clone();
+    sig.extend(&hb.scalar);
+    for rep in 0..ctx.t(8, 64) {
+        for (cl, b) in contents(&mut r, 80, &sig, &sig) {
+            let a: [u8; 80] = b.clone().try_into().unwrap();
+            probe(ctx, "Signature::from_bytes", &format!("{cl}/r{rep}"), 80, 0, || Sig::<X>::from_bytes(&a));
+            probe(ctx, "BlindSignature::from_bytes", &format!("{cl}/r{rep}"), 80, 0, || BSig::<X>::from_bytes(&a));
+            probe(ctx, "BBSplusSignature::from_bytes", &format!("{cl}/r{rep}"), 80, 0, || BBSplusSignature::from_bytes(&a));
+        }
+        for (cl, b) in contents(&mut r, 32, &hb.scalar, &hb.scalar) {
+            let a: [u8; 32] = b.clone().try_into().unwrap();
+            probe(ctx, "BlindFactor::from_bytes", &format!("{cl}/r{rep}"), 32, 0, || BlindFactor::from_bytes(&a));
+            probe(ctx, "BBSplusMessage::from_bytes_be", &format!("{cl}/r{rep}"), 32, 0, || BBSplusMessage::from_bytes_be(&a));
+        }
+        let pk = BBSplusPublicKey::from_bytes(&hb.pk).unwrap();
+        let (x, y) = pk.to_coordinates();
+        let mut xy = x.to_vec();
+        xy.extend_from_slice(&y);
+        for (cl, b) in contents(&mut r, 192, &xy, &xy) {
+            let xa: [u8; 96] = b[..96].try_into().unwrap();
+            let ya: [u8; 96] = b[96..].try_into().unwrap();
+            probe(ctx, "PublicKey::from_coordinates", &format!("{cl}/r{rep}"), 192, 0, || BBSplusPublicKey::from_coordinates(&xa, &ya));
+        }
+    }
+}
+
+/// B. serde_json decoding of all types on mutated honest JSON and random text
+fn serde_inputs<X: Sx>(ctx: &Ctx, idx: u64) {
+    let mut r = ctx.rng("c08s", idx);
+    let (sk, pk) = keypair::<X>(&mut r);
+    let msgs = gen_messages(&mut r, 3, 0);
+    let sig = Sig::<X>::sign(Some(&msgs), &sk, &pk, None).unwrap();
+    let proof = Pok::<X>::proof_gen(&pk, &sig.to_bytes(), None, None, Some(&msgs), Some(&[1])).unwrap();
+    let (com, _) = Com::<X>::commit(Some(&msgs)).unwrap();
+    let bsig = BSig::<X>::blind_sign(&sk, &pk, Some(&com.to_bytes()), None, Some(&msgs)).unwrap();
+    let kp = Kp::<X>::generate(&[7u8; 32], None, None).unwrap();
+    let honest: Vec<(&str, String)> = vec![
+        ("PublicKey", serde_json::to_string(&pk).unwrap()),
+        ("SecretKey", serde_json::to_string(&sk).unwrap()),
+        ("Signature", serde_json::to_string(&sig).unwrap()),
+        ("BlindSignature", serde_json::to_string(&bsig).unwrap()),
+        ("PoKSignature", serde_json::to_string(&proof).unwrap()),
+        ("Commitment", serde_json::to_string(&com).unwrap()),
+        ("KeyPair", serde_json::to_string(&kp).unwrap()),
+    ];
+    let decode = |ctx: &Ctx, ty: &str, case: &str, s: &str| {
+        let n = s.len();
+        match ty {
+            "PublicKey" => { probe(ctx, "serde/PublicKey", case, n, 0, || serde_json::from_str::<BBSplusPublicKey>(s)); }
+            "SecretKey" => { probe(ctx, "serde/SecretKey", case, n, 0, || serde_json::from_str::<BBSplusSecretKey>(s)); }
+            "Signature" => { probe(ctx, "serde/Signature", case, n, 0, || serde_json::from_str::<Sig<X>>(s)); }
+            "BlindSignature" => { probe(ctx, "serde/BlindSignature", case, n, 0, || serde_json::from_str::<BSig<X>>(s)); }
+            "PoKSignature" => { probe(ctx, "serde/PoKSignature", case, n, 0, || serde_json::from_str::<Pok<X>>(s)); }
+            "Commitment" => { probe(ctx, "serde/Commitment", case, n, 0, || serde_json::from_str::<Com<X>>(s)); }
+            _ => { probe(ctx, "serde/KeyPair", case, n, 0, || serde_json::from_str::<Kp<X>>(s)); }
+        }
+    };
+    for (ty, js) in &honest {
+        decode(ctx, ty, "honest", js);
+        // truncation at every position (quick: every 3rd)
+        for cut in (0..js.len()).step_by(ctx.t(3, 1)) {
+            decode(ctx, ty, &format!("truncated/{cut}"), &js[..cut]);
+        }
+        // byte substitutions
+        for rep in 0..ctx.t(150, 1500) {
+            let mut b = js.clone().into_bytes();
+            let i = rand_range(&mut r, b.len());
+            b[i] = *pick(&mut r, b"0123456789abcdefg\"{}[],:- xZ\\");
+            if let Ok(s) = String::from_utf8(b) {
+                decode(ctx, ty, &format!("substituted/{rep}"), &s);
+            }
+        }
+        // hex strings made odd / overlong / short, type confusion
+        let variants = [
+            js.replacen("\":\"", "\":\"0", 1),
+            js.replacen("\":\"", "\":\"00", 1),
+            js.replacen("\":\"", "\":\"zz", 1),
+            js.replace("\":\"", "\":1e999,\"x\":\""),
+            js.replace('"', ""),
+            js.replacen("\":\"", &format!("\":\"{}", "ab".repeat(5000)), 1),
+            js.replace("[", "[[[[[[[[").replace("]", "]]]]]]]]"),
+            js.replacen("\":\"", "\":null,\"y\":\"", 1),
+            js.replacen("\":\"", "\":[],\"y\":\"", 1),
+            js.replacen("\":\"", "\":{},\"y\":\"", 1),
+            format!("[{}]", js),
+            format!("{{\"BBSplus\":{}}}", js),
+            format!("{{\"CL03\":{}}}", js),
+            format!("{{\"_Unreachable\":null}}"),
+        ];
+        for (k, v) in variants.iter().enumerate() {
+            decode(ctx, ty, &format!("variant/{k}"), v);
+        }
+        // huge arrays, deep nesting, random text
+        decode(ctx, ty, "huge-array", &format!("{{\"BBSplus\":{{\"m_cap\":[{}]}}}}", vec!["\"00\""; 20000].join(",")));
+        decode(ctx, ty, "deep-nesting", &format!("{}{}", "[".repeat(100_000), "]".repeat(100_000)));
+        decode(ctx, ty, "deep-objects", &"{\"a\":".repeat(50_000));
+        for rep in 0..ctx.t(30, 300) {
+            let n = rand_range(&mut r, 200);
+            let t: String = (0..n).map(|_| *pick(&mut r, b"{}[]\":,0123456789abcdefABCDEFxyz \n\\u-+.eE") as char).collect();
+            decode(ctx, ty, &format!("random-text/{rep}"), &t);
+        }
+    }
+}
+
+fn index_lists(r: &mut impl RngCore, n: usize) -> Vec<(&'static str, Vec<usize>)> {
+    let mut v: Vec<(&'static str, Vec<usize>)> = vec![
+        ("empty", vec![]),
+        ("all", (0..n).collect()),
+        ("dups", vec![0, 0, 0]),
+        ("unsorted", (0..n).rev().collect()),
+        ("out-of-range", vec![n]),
+        ("out-of-range+1", vec![0, n + 1]),
+        ("usize-max", vec![usize::MAX]),
+        ("usize-max-1", vec![usize::MAX - 1, usize::MAX]),
+        ("2^32", vec![1 << 32]),
+        ("longer-than-n", (0..n + 3).collect()),
+        ("many-dups", vec![0; 1000]),
+        ("many-distinct", (0..1000).collect()),
+    ];
+    v.push(("random", (0..4).map(|_| rand_range(r, n + 2)).collect()));
+    v
+}
+
+/// C. verification / generation entry points with hostile index lists, counts and L
+fn entry_points<X: Sx>(ctx: &Ctx, idx: u64, l: usize, m: usize) {
+    let mut r = ctx.rng("c08c", idx);
+    let (sk, pk) = keypair::<X>(&mut r);
+    let msgs = gen_messages(&mut r, l, 0);
+    let cm = gen_messages(&mut r, m, 0);
+    let sig = Sig::<X>::sign(Some(&msgs), &sk, &pk, None).unwrap();
+    let sigb = sig.to_bytes();
+    let d: Vec<usize> = (0..l).step_by(2).collect();
+    let proof = Pok::<X>::proof_gen(&pk, &sigb, None, None, Some(&msgs), Some(&d)).unwrap();
+    let (com, bf) = Com::<X>::commit(Some(&cm)).unwrap();
+    let bsig = BSig::<X>::blind_sign(&sk, &pk, Some(&com.to_bytes()), None, Some(&msgs)).unwrap();
+    let bsb = bsig.to_bytes();
+    let c: Vec<usize> = (0..m).step_by(2).collect();
+    let bproof = Pok::<X>::blind_proof_gen(&pk, &bsb, None, None, Some(&msgs), Some(&cm), Some(&d), Some(&c), Some(&bf)).unwrap();
+    let n = l + 1 + m;
+    let base = format!("L{l}M{m}");
+    let msg_lists: Vec<(&str, Vec<Vec<u8>>)> = vec![
+        ("none", vec![]),
+        ("honest", msgs.clone()),
+        ("one-less", msgs[..l.saturating_sub(1)].to_vec()),
+        ("one-more", { let mut x = msgs.clone(); x.push(vec![1]); x }),
+        ("many", vec![vec![0u8; 3]; 300]),
+    ];
+    for (mn, ml) in &msg_lists {
+        let bytes: usize = ml.iter().map(|x| x.len()).sum();
+        probe(ctx, "verify", &format!("msgs-{mn}/{base}"), bytes + 80, ml.len(), || sig.verify(&pk, Some(ml), None));
+        probe(ctx, "verify_blind_sign", &format!("msgs-{mn}/{base}"), bytes + 80, ml.len() + cm.len(), || bsig.verify_blind_sign(&pk, None, Some(ml), Some(&cm), Some(&bf)));
+        probe(ctx, "verify_blind_sign", &format!("committed-{mn}/{base}"), bytes + 80, ml.len() + msgs.len(), || bsig.verify_blind_sign(&pk, None, Some(&msgs), Some(ml), Some(&bf)));
+        for (inm, il) in index_lists(&mut r, l) {
+            let units = ml.len() + il.len();
+            probe(ctx, "proof_gen", &format!("idx-{inm}/msgs-{mn}/{base}"), bytes + 80, units, || Pok::<X>::proof_gen(&pk, &sigb, None, None, Some(ml), Some(&il)));
+            probe(ctx, "proof_verify", &format!("idx-{inm}/msgs-{mn}/{base}"), bytes + proof.to_bytes().len(), units, || proof.proof_verify(&pk, Some(ml), Some(&il), None, None));
+            probe(ctx, "blind_proof_gen", &format!("idx-{inm}/msgs-{mn}/{base}"), bytes + 80, units + cm.len(), || Pok::<X>::blind_proof_gen(&pk, &bsb, None, None, Some(ml), Some(&cm), Some(&il), Some(&c), Some(&bf)));
+            probe(ctx, "blind_proof_gen", &format!("cidx-{inm}/msgs-{mn}/{base}"), bytes + 80, units + msgs.len(), || Pok::<X>::blind_proof_gen(&pk, &bsb, None, None, Some(&msgs), Some(ml), Some(&d), Some(&il), Some(&bf)));
+        }
+    }
+    // blind_proof_verify: L x index lists x message counts
+    let dm: Vec<Vec<u8>> = d.iter().map(|&i| msgs[i].clone()).collect();
+    let dcm: Vec<Vec<u8>> = c.iter().map(|&j| cm[j].clone()).collect();
+    let pl = bproof.to_bytes().len();
+    let ls: Vec<Option<usize>> = vec![None, Some(0), Some(1), Some(l), Some(n - 1), Some(n), Some(n + 1), Some(n.wrapping_sub(2)), Some(1 << 20), Some(1 << 40), Some(usize::MAX - 1), Some(usize::MAX)];
+    for ll in &ls {
+        let lname = ll.map(|x| x.to_string()).unwrap_or("None".into());
+        probe(ctx, "blind_proof_verify", &format!("L-{lname}/honest-lists/{base}"), pl, d.len() + c.len(), || bproof.blind_proof_verify(&pk, None, None, *ll, Some(&dm), Some(&dcm), Some(&d), Some(&c)));
+        for (inm, il) in index_lists(&mut r, n) {
+            let ml: Vec<Vec<u8>> = il.iter().take(40).map(|_| vec![7u8]).collect();
+            let il2: Vec<usize> = il.iter().copied().take(40).collect();
+            probe(ctx, "blind_proof_verify", &format!("L-{lname}/idx-{inm}/{base}"), pl, il2.len() * 2 + c.len(), || bproof.blind_proof_verify(&pk, None, None, *ll, Some(&ml), Some(&dcm), Some(&il2), Some(&c)));
+            probe(ctx, "blind_proof_verify", &format!("L-{lname}/cidx-{inm}/{base}"), pl, il2.len() * 2 + d.len(), || bproof.blind_proof_verify(&pk, None, None, *ll, Some(&dm), Some(&ml), Some(&d), Some(&il2)));
+            // a plain proof through the blind verifier and vice versa
+            probe(ctx, "blind_proof_verify", &format!("plain-proof/L-{lname}/idx-{inm}/{base}"), pl, il2.len() * 2, || proof.blind_proof_verify(&pk, None, None, *ll, Some(&ml), None, Some(&il2), None));
+        }
+    }
+    // signatures / proofs given as arbitrary octets to the holder-side entry points
+    for n_ in [0usize, 1, 79, 80, 81, 160] {
+        for (cl, b) in contents(&mut r, n_, &sigb, &sigb) {
+            probe(ctx, "proof_gen", &format!("sig-octets-{cl}/len{n_}/{base}"), n_, msgs.len(), || Pok::<X>::proof_gen(&pk, &b, None, None, Some(&msgs), Some(&d)));
+            probe(ctx, "blind_proof_gen", &format!("sig-octets-{cl}/len{n_}/{base}"), n_, msgs.len() + cm.len(), || Pok::<X>::blind_proof_gen(&pk, &b, None, None, Some(&msgs), Some(&cm), Some(&d), Some(&c), Some(&bf)));
+        }
+    }
+}
+
+/// D. blind_sign / deserialize_and_validate_commit with commitment octets of every length
+fn commitments<X: Sx>(ctx: &Ctx, idx: u64, lens: Vec<usize>) {
+    let mut r = ctx.rng("c08d", idx);
+    let (sk, pk) = keypair::<X>(&mut r);
+    let hb = honest_bits::<X>(&mut r);
+    let mut tile = hb.g1.clone();
+    tile.extend(hb.scalar.repeat(40));
+    let msgs = gen_messages(&mut r, 2, 0);
+    let api = X::ID.blind_api_id();
+    let blind_api = [b"BLIND_".as_slice(), &api].concat();
+    for &n in &lens {
+        for (cl, b) in contents(&mut r, n, &hb.commitment, &tile) {
+            probe(ctx, "blind_sign", &format!("{cl}/len{n}"), n, msgs.len(), || BSig::<X>::blind_sign(&sk, &pk, Some(&b), None, Some(&msgs)));
+            if n % 16 == 0 || n < 130 {
+                let mm = n.saturating_sub(112) / 32;
+                for gcount in [0usize, 1, mm, mm + 1, mm + 2] {
+                    let gens = Generators::create::<X::CS>(gcount, Some(&blind_api));
+                    probe(ctx, "deserialize_and_validate_commit", &format!("{cl}/len{n}/gens{gcount}"), n, gcount, || Com::<X>::deserialize_and_validate_commit(Some(&b), &gens, Some(&api)));
+                }
+            }
+        }
+    }
+}
+
+/// E. update_signature with hostile positions and counts
+fn updates<X: Sx>(ctx: &Ctx, idx: u64) {
+    let mut r = ctx.rng("c08e", idx);
+    let (sk, pk) = keypair::<X>(&mut r);
+    for l in [1usize, 2, 5] {
+        let msgs = gen_messages(&mut r, l, 0);
+        let sig = Sig::<X>::sign(Some(&msgs), &sk, &pk, None).unwrap();
+        let ns: Vec<usize> = (0..=ctx.t(20, 64)).chain([100, 255, 256, 1000, 4096, usize::MAX]).collect();
+        for &n in &ns {
+            let idxs: Vec<usize> = (0..=(n.min(12)).saturating_add(1)).chain([n.wrapping_sub(1), n, n.wrapping_add(1), 1 << 32, usize::MAX - 1, usize::MAX]).collect();
+            for &ui in &idxs {
+                if n >= 1000 && ui > 2 && ui < (1 << 32) {
+                    continue;
+                }
+                let units = if n == usize::MAX { 0 } else { n };
+                probe(ctx, "update_signature", &format!("upd/n{}/idx{}/L{l}", n, ui), 80 + 2, units / 4 + 1, || sig.update_signature(&sk, &msgs[0], b"new", ui, n));
+            }
+        }
+    }
+    let _ = rf::i2osp8(0);
+}
+
+pub fn scenarios(ctx: &Ctx) -> Vec<Scenario> {
+    let mut v = Vec::new();
+    let all: Vec<usize> = (0..=1024).collect();
+    // every length 0..=1024, split over 16 scenarios per suite
+    for (k, chunk) in all.chunks(65).enumerate() {
+        let (c1, c2) = (chunk.to_vec(), chunk.to_vec());
+        let i = k as u64;
+        if ctx.quick() {
+            // quick: lengths alternate between the suites; thorough: both suites see every length
+            if k % 2 == 0 {
+                v.push(scenario(format!("A/sha/len{}..", chunk[0]), move |c| decoders::<Sha>(c, i, c1)));
+            } else {
+                v.push(scenario(format!("A/shake/len{}..", chunk[0]), move |c| decoders::<Shake>(c, i, c2)));
+            }
+        } else {
+            v.push(scenario(format!("A/sha/len{}..", chunk[0]), move |c| decoders::<Sha>(c, i, c1)));
+            v.push(scenario(format!("A/shake/len{}..", chunk[0]), move |c| decoders::<Shake>(c, i, c2)));
+        }
+    }
+    v.push(scenario("F/sha", |c| fixed_decoders::<Sha>(c, 100)));
+    v.push(scenario("F/shake", |c| fixed_decoders::<Shake>(c, 101)));
+    v.push(scenario("B/sha", |c| serde_inputs::<Sha>(c, 200)));
+    v.push(scenario("B/shake", |c| serde_inputs::<Shake>(c, 201)));
+    for (k, (l, m)) in [(0usize, 0usize), (1, 0), (3, 2), (2, 5)].into_iter().enumerate() {
+        let i = 300 + k as u64;
+        v.push(scenario(format!("C/sha/L{l}M{m}"), move |c| entry_points::<Sha>(c, i, l, m)));
+        v.push(scenario(format!("C/shake/L{l}M{m}"), move |c| entry_points::<Shake>(c, i, l, m)));
+    }
+    let step = ctx.t(4, 1);
+    for (k, chunk) in all.chunks(129).enumerate() {
+        let lens: Vec<usize> = chunk.iter().copied().filter(|n| n % step == 0 || *n < 200 || (n + 16) % 32 <= 1).collect();
+        let (c1, c2) = (lens.clone(), lens);
+        let i = 400 + k as u64;
+        v.push(scenario(format!("D/sha/len{}..", chunk[0]), move |c| commitments::<Sha>(c, i, c1)));
+        v.push(scenario(format!("D/shake/len{}..", chunk[0]), move |c| commitments::<Shake>(c, i, c2)));
+    }
+    v.push(scenario("E/sha", |c| updates::<Sha>(c, 500)));
+    v.push(scenario("E/shake", |c| updates::<Shake>(c, 501)));
+    v
+}
